@@ -10,8 +10,9 @@ import (
 func init() { runners["C08"] = runC08 }
 
 type c08gen struct {
-	r    *Rng
-	hist map[string]int
+	r         *Rng
+	hist      map[string]int
+	entryCall func(n int) types.MalType
 }
 
 // tail wraps e into a random tail context: the hole stays in tail position.
@@ -54,24 +55,50 @@ func (g *c08gen) tail(e types.MalType, depth int) types.MalType {
 // loop builds m mutually recursive functions counting n down to 0 and returning (depth!)
 func (g *c08gen) loop(m, nest int) (defs []types.MalType, entry string) {
 	names := make([]string, m)
+	styles := make([]int, m) // parameter list of each function: [n], [n & more], [n acc]
 	for i := range names {
 		names[i] = fmt.Sprintf("loop%d", i)
+		styles[i] = g.r.Intn(3)
 	}
+	params := func(i int) types.MalType {
+		switch styles[i] {
+		case 1:
+			g.hist["params:variadic"]++
+			return V(S("n"), S("&"), S("more"))
+		case 2:
+			g.hist["params:two"]++
+			return V(S("n"), S("acc"))
+		}
+		g.hist["params:one"]++
+		return V(S("n"))
+	}
+	callFn := func(i int, n types.MalType) types.MalType {
+		switch styles[i] {
+		case 1:
+			if g.r.Bool() {
+				return Call(names[i], n, 7, 8)
+			}
+			return Call(names[i], n)
+		case 2:
+			return Call(names[i], n, 0)
+		}
+		return Call(names[i], n)
+	}
+	g.entryCall = func(n int) types.MalType { return callFn(0, n) }
 	for i := range names {
-		next := names[(i+1)%m]
-		rec := g.tail(Call(next, Call("-", S("n"), 1)), g.r.Intn(nest+1))
+		rec := g.tail(callFn((i+1)%m, Call("-", S("n"), 1)), g.r.Intn(nest+1))
 		body := Call("if", Call("=", S("n"), 0), Call("depth!"), rec)
 		if g.r.Bool() {
 			body = Call("cond", Call("=", S("n"), 0), Call("depth!"), true, rec)
 		}
-		defs = append(defs, Call("def", S(names[i]), Call("fn", V(S("n")), g.tail(body, g.r.Intn(2)))))
+		defs = append(defs, Call("def", S(names[i]), Call("fn", params(i), g.tail(body, g.r.Intn(2)))))
 	}
 	return defs, names[0]
 }
 
 func runC08(tier string, seed uint64, rep *Report) {
 	rep.Rule = "loop shapes: 1..3 mutually recursive functions whose recursive call sits in a random nesting (<=3 quick, <=5 thorough) of tail " +
-		"contexts do/let(single and multi-form body)/if/cond/and/or/fn-body; each shape is run for n in {0,1,2,10,120} and returns the number of " +
+		"contexts do/let(single and multi-form body)/if/cond/and/or/fn-body, with parameter lists [n], [n & more] (called with one or three arguments) and [n acc]; each shape is run for n in {0,1,2,10,120} and returns the number of " +
 		"lisp.EVAL frames on the Go stack at the base case (harness builtin depth!, runtime.Callers). The model predicts the same numbers. " +
 		"Direct oracle: depth at n=120 equals depth at n=10 and n=2."
 	g := &c08gen{r: NewRng(seed), hist: map[string]int{}}
@@ -80,11 +107,11 @@ func runC08(tier string, seed uint64, rep *Report) {
 		shapes, nest = 2500, 5
 	}
 	for i := 0; i < shapes; i++ {
-		defs, entry := g.loop(1+g.r.Intn(3), nest)
+		defs, _ := g.loop(1+g.r.Intn(3), nest)
 		ns := []int{0, 1, 2, 10, 120}
 		calls := []types.MalType{S("list")}
 		for _, n := range ns {
-			calls = append(calls, Call(entry, n))
+			calls = append(calls, g.entryCall(n))
 		}
 		prog := L(append(append([]types.MalType{S("do")}, defs...), L(calls...))...)
 		idx, _, o := addProgram(rep, prog, true, "shape")
